@@ -675,3 +675,346 @@ Proof.
   - eexists. eexists. eexists. split; vm_compute; reflexivity.
 Qed.
 Print Assumptions closure_exact_real_sorted_inhabited.
+
+(* ================================================================================================
+   Table values that refer to OTHER variables than the product's own directory (Proofs/SetupRefsExample.v):
+   the directory variable of a dependency that an earlier line of the same table set up.
+   ================================================================================================ *)
+From Eupsv Require Import Proofs.SetupRefsExample.
+
+(* an envSet line is taken back whatever its value is - the reverse of envSet does not look at the value, so it
+   does not matter that a variable the value refers to (the directory variable of a dependency, which the unsetup
+   has already removed when it comes to the line) is no longer defined *)
+Theorem envset_is_taken_back_whatever_its_value k v st :
+  exec_simple false (ASet k v) st = Ok (unset_env st k).
+Proof. reflexivity. Qed.
+Print Assumptions envset_is_taken_back_whatever_its_value.
+
+(* tool 1.0: setupRequired(kit), envSet(TOOL_PLUGINS, KIT_DIR/plugins), envPrepend(PATH, KIT_DIR/tools).
+   setup tool 1.0, then setup tool 2.0 (kit 1.0 is replaced by kit 2.0):
+   - the envSet variable, which pointed into the directory of kit 1.0, is gone: no residue;
+   - finding D61 (open): the element the envPrepend line added is still in PATH and refers to the directory of
+     the replaced kit 1.0.  The old table is unset up in table order, kit 1.0 first: KIT_DIR is gone when the
+     envPrepend line is reversed, the value cannot be expanded and the literal text is removed, which removes
+     nothing.  WF (every path and envSet value of the world free of references), and with it WF2 of
+     setup_preserves_inv, excludes such a table (see dep_variable_after_dependency_refuted in Props/C02.v). *)
+Example dep_variable_residue_refuted :
+  exists st1 st2,
+    setup rx_world rx_cfg 10 rx_st0 rx_ds1 (lit "tool") true 0 false = RDone true st1 [] /\
+    setup rx_world rx_cfg 10 st1 rx_ds2 (lit "tool") true 0 false = RDone true st2 [] /\
+    alookup (lit "TOOL_PLUGINS") (s_env st1) = Some (lit "/s/kit/1.0/plugins") /\
+    alookup (lit "TOOL_PLUGINS") (s_env st2) = None /\
+    alookup (lit "KIT_DIR") (s_env st2) = Some (lit "/s/kit/2.0") /\
+    alookup (lit "PATH") (s_env st2) = Some (lit "/s/tool/2.0/bin:/s/kit/2.0/bin:/s/kit/1.0/tools:/usr/bin").
+Proof.
+  eexists. eexists. split; [vm_compute; reflexivity|]. split; [vm_compute; reflexivity|].
+  repeat split; vm_compute; reflexivity.
+Qed.
+Print Assumptions dep_variable_residue_refuted.
+
+(* ================================================================================================
+   SEVERAL STACKS ON EUPS_PATH  (Model/SetupMS.v, Model/SetupMSFull.v, Model/SetupMSText.v)
+
+   Everything above speaks about one stack.  Below, every declaration carries the stack it lives in and the flavor
+   it is declared under; the same name and version may be declared in two stacks with different directories and
+   tables; SETUP_NAME records the stack the product was found in, findSetupProduct decodes it and looks THERE;
+   a decision of the resolver is a version and a stack.  The per-name consistency clause of the invariant now
+   says: the directory variable and the table contributions are those of the recorded version OF THE RECORDED
+   STACK, and nothing of any other declaration of the name - another version, or the same version in another
+   stack - is left.  Hypotheses WF2 of Proofs/SetupMSInv.v: those of the one-stack WF2, with (name, version, stack)
+   as the key of a declaration, a one-word flavor, and a stack root that utils.decodePath gives back from
+   utils.encodePath (root_ok; refuted for a root with the characters minus plus in front of a blank, see
+   decode_encode_refuted below).  The proofs are the scripts of Proofs/SetupFrame.v, SetupInv.v, SetupFull.v on
+   the new definitions (Proofs/SetupMSFrame.v, SetupMSInv.v, SetupMSFull.v); Proofs/SetupMSStack.v has what is new.
+   ================================================================================================ *)
+From Eupsv Require Import Model.SetupMS Proofs.SetupMSFrame Proofs.SetupMSInv Proofs.SetupMSStack
+     Model.SetupMSWf Proofs.SetupMSWf Model.SetupMSFull Proofs.SetupMSFull.
+
+Theorem ms_setup_preserves_inv w cfg dl rank fuel st ds name fwd depth just ok st' ds' :
+  SetupMSInv.WF2 w dl rank -> SetupMSFrame.nodollar_paths w (s_env st) -> SetupMSFrame.depth_ok cfg depth ->
+  SetupMSInv.Inv w cfg (s_env st) ->
+  msetup w cfg fuel st ds name fwd depth just = MDone ok st' ds' ->
+  SetupMSInv.Inv w cfg (s_env st') /\ SetupMSFrame.nodollar_paths w (s_env st').
+Proof. intro H. exact (SetupMSInv.setup_preserves_Inv w cfg dl rank H fuel st ds name fwd depth just ok st' ds'). Qed.
+Print Assumptions ms_setup_preserves_inv.
+
+Theorem ms_request_preserves_inv w cfg dl rank fuel st ds name fwd just st' :
+  SetupMSInv.WF2 w dl rank -> SetupMSFrame.nodollar_paths w (s_env st) -> SetupMSInv.Inv w cfg (s_env st) ->
+  mrequest w cfg fuel st ds name fwd just = Ok (Some st') -> SetupMSInv.Inv w cfg (s_env st').
+Proof.
+  intros H Hnd HI Hr. unfold mrequest in Hr.
+  destruct (msetup w cfg fuel st ds name fwd 0 just) as [ok st1 ds1|st1 ds1| |] eqn:E; try discriminate.
+  destruct ok; [|discriminate]. injection Hr as <-.
+  assert (Hd : SetupMSFrame.depth_ok cfg 0) by (unfold SetupMSFrame.depth_ok; destruct (c_max_depth cfg); lia).
+  exact (proj1 (ms_setup_preserves_inv w cfg dl rank fuel st ds name fwd 0 just true st1 ds1 H Hnd Hd HI E)).
+Qed.
+Print Assumptions ms_request_preserves_inv.
+
+(* what the invariant says about a product whose SETUP_NAME holds the value Eups.setup writes for the declaration
+   p: p is the declaration found (in the recorded stack, not in the first stack of the path that declares the
+   version), NAME_DIR is ITS directory, ITS contributions are present and nothing of any other declaration of
+   the name is - in particular nothing of the same version declared in another stack *)
+Theorem recorded_stack_is_consistent w cfg dl rank e p :
+  SetupMSInv.WF2 w dl rank -> SetupMSInv.Inv w cfg e -> In p w ->
+  alookup (setup_var (mp_name p)) e = Some (ms_setup_string p) ->
+  mfind_setup_product w (c_flavor cfg) e (mp_name p) = Some p /\
+  alookup (dir_var (mp_name p)) e = Some (mp_dir p) /\ SetupMSInv.present p e /\
+  forall q, In q w -> mp_name q = mp_name p -> q <> p -> SetupMSInv.absent q e.
+Proof.
+  intros H HI Hin E. pose proof (recorded_product_found w dl rank (c_flavor cfg) e p H Hin E) as Hf.
+  split; [assumption|]. pose proof (HI (mp_name p)) as C. unfold SetupMSInv.clause in C. rewrite Hf in C.
+  destruct C as [D [P A]]. split; [assumption|split; [assumption|]].
+  intros q Hq Hn Hne. apply A; [split; assumption|assumption].
+Qed.
+Print Assumptions recorded_stack_is_consistent.
+
+Theorem ms_unrecorded_product_leaves_no_residue w cfg name e q :
+  SetupMSInv.Inv w cfg e -> mfind_setup_product w (c_flavor cfg) e name = None -> In q w -> mp_name q = name ->
+  SetupMSInv.absent q e.
+Proof.
+  intros HI Hf Hq Hn. pose proof (HI name) as C. unfold SetupMSInv.clause in C. rewrite Hf in C. apply C. split; assumption.
+Qed.
+Print Assumptions ms_unrecorded_product_leaves_no_residue.
+
+(* the decision taken for the requested product at the top level - a version AND a stack - is what is recorded *)
+Theorem ms_decided_version_is_set_up w cfg dl rank fuel st k ds name just st' ds' :
+  SetupMSInv.WF2 w dl rank -> SetupMSFrame.nodollar_paths w (s_env st) -> SetupMSInv.Inv w cfg (s_env st) ->
+  msetup w cfg fuel st (Some k :: ds) name true 0 just = MDone true st' ds' ->
+  exists p, find_pvr w name k = Some p /\ mp_version p = vr_version k /\ mp_root p = vr_root k /\
+            mfind_setup_product w (c_flavor cfg) (s_env st') name = Some p /\
+            alookup (setup_var name) (s_env st') = Some (ms_setup_string p).
+Proof.
+  intros H Hnd HI Hrun.
+  assert (Hd : SetupMSFrame.depth_ok cfg 0) by (unfold SetupMSFrame.depth_ok; destruct (c_max_depth cfg); lia).
+  pose proof (SetupMSInv.setup_inv w cfg dl rank H fuel st (Some k :: ds) name true 0 just Hnd Hd (fun n _ => HI n)) as I0.
+  rewrite Hrun in I0. destruct I0 as [_ [_ T]].
+  destruct (T eq_refl eq_refl k ds eq_refl) as [p [Hf [[Hs Hr]|[Hz _]]]]; [|now elim Hz].
+  exists p. destruct (SetupMSFrame.find_pvr_spec w name k p Hf) as [_ [Hv Hroot]]. repeat split; assumption.
+Qed.
+Print Assumptions ms_decided_version_is_set_up.
+
+(* below the top level: the product decided on is recorded with its stack, OR it was found already set up - the
+   same version or the same directory, whatever the stack SETUP_NAME records - and nothing was changed (the test
+   of Eups.setup compares versions and directories, not stacks) *)
+Theorem ms_nested_decision_recorded_or_already_set_up w cfg dl rank fuel st k ds name depth just st' ds' :
+  SetupMSInv.WF2 w dl rank -> SetupMSFrame.nodollar_paths w (s_env st) -> SetupMSFrame.depth_ok cfg depth ->
+  SetupMSInv.Inv w cfg (s_env st) ->
+  msetup w cfg fuel st (Some k :: ds) name true depth just = MDone true st' ds' ->
+  exists p, find_pvr w name k = Some p /\
+    ((mfind_setup_product w (c_flavor cfg) (s_env st') name = Some p /\
+      alookup (setup_var name) (s_env st') = Some (ms_setup_string p)) \/
+     (depth <> 0 /\ st' = st /\ msame_product p (mfind_setup_product w (c_flavor cfg) (s_env st) name) = true)).
+Proof.
+  intros H Hnd Hd HI Hrun.
+  pose proof (SetupMSInv.setup_inv w cfg dl rank H fuel st (Some k :: ds) name true depth just Hnd Hd (fun n _ => HI n)) as I0.
+  rewrite Hrun in I0. destruct I0 as [_ [_ T]]. exact (T eq_refl eq_refl k ds eq_refl).
+Qed.
+Print Assumptions ms_nested_decision_recorded_or_already_set_up.
+
+(* ---- the composed model with several stacks ---- *)
+
+Theorem ms_setup_full_is_setup vcmp vmatch fw cfg rc flavors fuel st al vro name li fwd depth just rest :
+  msetup (mfw_products fw) cfg fuel st
+         (mtrace_of (msetup_full vcmp vmatch fw cfg rc flavors fuel st al vro name li fwd depth just) ++ rest)
+         name fwd depth just =
+  merase rest (msetup_full vcmp vmatch fw cfg rc flavors fuel st al vro name li fwd depth just).
+Proof. apply SetupMSFull.setup_full_agrees. Qed.
+Print Assumptions ms_setup_full_is_setup.
+
+Corollary ms_setup_full_preserves_inv vcmp vmatch fw cfg rc flavors dl rank fuel st al vro name li fwd depth just ok st' al' tr :
+  SetupMSInv.WF2 (mfw_products fw) dl rank -> SetupMSFrame.nodollar_paths (mfw_products fw) (s_env st) ->
+  SetupMSFrame.depth_ok cfg depth -> SetupMSInv.Inv (mfw_products fw) cfg (s_env st) ->
+  msetup_full vcmp vmatch fw cfg rc flavors fuel st al vro name li fwd depth just = MFDone ok st' al' tr ->
+  SetupMSInv.Inv (mfw_products fw) cfg (s_env st') /\ SetupMSFrame.nodollar_paths (mfw_products fw) (s_env st').
+Proof. apply SetupMSFull.setup_full_inv_lemma. Qed.
+Print Assumptions ms_setup_full_preserves_inv.
+
+Corollary ms_request_full_preserves_inv vcmp vmatch fw cfg rc flavors dl rank fuel st name version fwd just st' tr :
+  SetupMSInv.WF2 (mfw_products fw) dl rank -> SetupMSFrame.nodollar_paths (mfw_products fw) (s_env st) ->
+  SetupMSInv.Inv (mfw_products fw) cfg (s_env st) ->
+  mrequest_full vcmp vmatch fw cfg rc flavors fuel st name version fwd just = Ok (Some st', tr) ->
+  SetupMSInv.Inv (mfw_products fw) cfg (s_env st').
+Proof.
+  intros H Hnd HI E. unfold mrequest_full in E. destruct (select_vro rc (request_opts cfg version)) as [vro|]; [|discriminate].
+  destruct (msetup_full vcmp vmatch fw cfg rc flavors fuel st [] vro name _ fwd 0 just) as [[|] st1 al1 tr1|st1 al1 tr1|tr1|tr1] eqn:R;
+    try discriminate.
+  injection E as <- _.
+  assert (Hd : SetupMSFrame.depth_ok cfg 0) by (unfold SetupMSFrame.depth_ok; destruct (c_max_depth cfg); lia).
+  exact (proj1 (SetupMSFull.setup_full_inv_lemma vcmp vmatch fw cfg rc flavors dl rank fuel st [] vro name _ fwd 0 just true st1 al1 tr1
+                  H Hnd Hd HI R)).
+Qed.
+Print Assumptions ms_request_full_preserves_inv.
+
+(* The stack recorded in SETUP_NAME is the one the resolver's decision came from: a top-level forward call of the
+   composed model that succeeds resolved its request - on the database view of the SELECTED stacks, in path order,
+   by the resolver of C03 - to a product fd, and afterwards SETUP_NAME holds the value written for the declaration
+   of version fd_version fd IN THE STACK fd_stack fd, which is the declaration findSetupProduct finds *)
+Theorem setup_records_the_stack_found vcmp vmatch fw cfg rc flavors dl rank fuel st al vro name li just st' al' tr :
+  SetupMSInv.WF2 (mfw_products fw) dl rank -> SetupMSFrame.nodollar_paths (mfw_products fw) (s_env st) ->
+  SetupMSInv.Inv (mfw_products fw) cfg (s_env st) ->
+  msetup_full vcmp vmatch fw cfg rc flavors fuel st al vro name li true 0 just = MFDone true st' al' tr ->
+  exists fd why p,
+    resolve_request vcmp vmatch rc (mdb_of fw) (c_keep cfg) (alookup name al) flavors 0 vro
+                    (mkRequest name (li_version li) (li_expr li)) = Ok (Some (fd, why)) /\
+    find_pvr (mfw_products fw) name (vref_of fd) = Some p /\
+    mp_version p = fd_version fd /\ mp_root p = fd_stack fd /\
+    mfind_setup_product (mfw_products fw) (c_flavor cfg) (s_env st') name = Some p /\
+    alookup (setup_var name) (s_env st') = Some (ms_setup_string p).
+Proof. apply SetupMSFull.top_level_records_decision. Qed.
+Print Assumptions setup_records_the_stack_found.
+
+Theorem ms_explicit_version_is_set_up vcmp vmatch fw cfg rc flavors dl rank fuel st al vro name v x just st' al' tr :
+  SetupMSInv.WF2 (mfw_products fw) dl rank -> SetupMSFrame.nodollar_paths (mfw_products fw) (s_env st) ->
+  SetupMSInv.Inv (mfw_products fw) cfg (s_env st) ->
+  v <> [] -> is_expr v = false ->
+  msetup_full vcmp vmatch fw cfg rc flavors fuel st al vro name {| li_version := Some v; li_expr := x |} true 0 just
+    = MFDone true st' al' tr ->
+  exists p, mp_version p = v /\ mfind_setup_product (mfw_products fw) (c_flavor cfg) (s_env st') name = Some p.
+Proof. apply SetupMSFull.explicit_version_lemma. Qed.
+Print Assumptions ms_explicit_version_is_set_up.
+
+(* the hypothesis root_ok is needed: utils.decodePath does not give back every root from utils.encodePath *)
+Example decode_encode_refuted : decode_path (encode_path (lit "/a-+ b")) = lit "/a +-b".
+Proof. vm_compute. reflexivity. Qed.
+
+(* ---- the hypotheses are inhabited on a world with the same name and version in two stacks ----
+   ms_world (Proofs/SetupMSStack.v): lib 1.0 in the stack /sA (flavor Linux64) and in the stack /s B (flavor generic,
+   a blank in the root), different directories and tables; lib 2.0 only in the second; app 1.0 in the first,
+   requiring lib.  WF2 holds (checker of Model/SetupMSWf.v, sound by Proofs/SetupMSWf.v).  setup lib with the
+   decision (1.0, second stack) records -f generic -Z /s-+-B and the second stack's table; setup app after that,
+   with the decisions app (first stack) and lib 1.0 OF THE FIRST STACK, finds lib already set up and leaves the
+   record on the second stack; a top-level setup of lib 1.0 of the first stack from there replaces the second
+   stack's contributions by the first's. *)
+Example ms_c01_hypotheses_inhabited :
+  SetupMSInv.WF2 ms_world (mdl_of ms_world) (mrank_of ms_order) /\
+  SetupMSInv.Inv ms_world ms_cfg (s_env ms_st0) /\
+  msetup ms_world ms_cfg 3 ms_st0 [Some (key_of ms_libB)] (lit "lib") true 0 false = MDone true ms_stB [] /\
+  msetup ms_world ms_cfg 3 ms_stB [Some (key_of ms_app); Some (key_of ms_libA)] (lit "app") true 0 false
+    = MDone true ms_stApp [] /\
+  mfind_setup_product ms_world (lit "Linux64") (s_env ms_stApp) (lit "lib") = Some ms_libB /\
+  msetup ms_world ms_cfg 3 ms_stB [Some (key_of ms_libA)] (lit "lib") true 0 false = MDone true ms_stA [] /\
+  SetupMSInv.Inv ms_world ms_cfg (s_env ms_stA).
+Proof.
+  assert (H : SetupMSInv.WF2 ms_world (mdl_of ms_world) (mrank_of ms_order))
+    by (apply SetupMSWf.wf2_check_sound; vm_compute; reflexivity).
+  assert (I0 : SetupMSInv.Inv ms_world ms_cfg (s_env ms_st0)) by apply SetupMSWf.Inv_nil.
+  assert (N0 : SetupMSFrame.nodollar_paths ms_world (s_env ms_st0)) by apply SetupMSWf.nodollar_nil.
+  assert (R1 : msetup ms_world ms_cfg 3 ms_st0 [Some (key_of ms_libB)] (lit "lib") true 0 false = MDone true ms_stB [])
+    by (vm_compute; reflexivity).
+  assert (R3 : msetup ms_world ms_cfg 3 ms_stB [Some (key_of ms_libA)] (lit "lib") true 0 false = MDone true ms_stA [])
+    by (vm_compute; reflexivity).
+  assert (Hd : SetupMSFrame.depth_ok ms_cfg 0) by exact I.
+  destruct (ms_setup_preserves_inv _ _ _ _ _ _ _ _ _ _ _ _ _ _ H N0 Hd I0 R1) as [I1 N1].
+  destruct (ms_setup_preserves_inv _ _ _ _ _ _ _ _ _ _ _ _ _ _ H N1 Hd I1 R3) as [I3 _].
+  split; [exact H|split; [exact I0|split; [exact R1|split; [vm_compute; reflexivity|split; [vm_compute; reflexivity|
+  split; [exact R3|exact I3]]]]]].
+Qed.
+Print Assumptions ms_c01_hypotheses_inhabited.
+
+(* ---- several stacks, worlds given as table TEXTS (Model/SetupMSText.v) ---- *)
+From Eupsv Require Import Model.SetupMSText.
+
+(* the translated world declares exactly the products of the text world, each in ITS stack, under ITS flavor; and its
+   table is the text read with the root of that stack for PRODUCTS / UPS_DB and that flavor for the conditions *)
+Theorem ms_text_world_declares tc tw w :
+  mworld_of_text tc tw = Ok w ->
+  map mp_name w = map mt_name tw /\ map mp_version w = map mt_version tw /\ map mp_root w = map mt_root tw /\
+  map mp_flavor w = map mt_flavor tw /\ map mp_dir w = map mt_dir tw /\
+  Forall2 (fun p tp => table_setup_actions tc (mpinfo_for tp) (mt_flavor tp) (mt_text tp) = Ok (mp_actions p)) w tw.
+Proof.
+  unfold mworld_of_text. revert w. induction tw as [|tp tw IH]; intros w E.
+  - injection E as <-. repeat split; constructor.
+  - cbn [map_res] in E. destruct (mproduct_of_text tc tp) as [p|e] eqn:Ep; [|discriminate]. cbn [bind] in E.
+    destruct (map_res (mproduct_of_text tc) tw) as [w'|e] eqn:Ew; [|discriminate]. cbn [bind] in E. injection E as <-.
+    destruct (IH w' eq_refl) as [H1 [H2 [H3 [H4 [H5 H6]]]]].
+    unfold mproduct_of_text in Ep. destruct (negb (pinfo_ok (mpinfo_for tp))); [discriminate|].
+    destruct (table_setup_actions tc (mpinfo_for tp) (mt_flavor tp) (mt_text tp)) as [acts|e] eqn:Ea; [|discriminate].
+    cbn [bind] in Ep. injection Ep as <-. cbn [map mp_name mp_version mp_root mp_flavor mp_dir mp_actions].
+    rewrite H1, H2, H3, H4, H5. repeat split. constructor; [exact Ea|assumption].
+Qed.
+Print Assumptions ms_text_world_declares.
+
+Theorem ms_request_text_preserves_inv cfg tc tw w dl rank fuel st ds name fwd just st' :
+  mworld_of_text tc tw = Ok w ->
+  SetupMSInv.WF2 w dl rank -> SetupMSFrame.nodollar_paths w (s_env st) -> SetupMSInv.Inv w cfg (s_env st) ->
+  mrequest_text cfg tc tw fuel st ds name fwd just = Ok (Some st') -> SetupMSInv.Inv w cfg (s_env st').
+Proof.
+  intros Hw H Hnd HI E. unfold mrequest_text in E. rewrite Hw in E. cbn [bind] in E.
+  exact (ms_request_preserves_inv w cfg dl rank fuel st ds name fwd just st' H Hnd HI E).
+Qed.
+Print Assumptions ms_request_text_preserves_inv.
+
+(* ---- the one-stack world is the special case ----
+   embed cfg w: every declaration of w in the stack c_root cfg under the flavor flavor_of cfg.  The value written in
+   SETUP_NAME is the same in both models, a decision finds the same declaration, and findSetupProduct agrees on every
+   value the one-stack Eups.setup writes; the two models run the example world of Proofs/SetupExample.v alike
+   (and every one-stack scenario of the correspondence check: one-stack-request-through-the-multi-stack-model).
+   The equality of ALL runs is not proved: Model/Setup.v does not read the stack that a SETUP_ value records. *)
+From Eupsv Require Import Proofs.SetupMSEmbed.
+
+Theorem one_stack_is_a_special_case cfg w e p name v :
+  ms_setup_string (embed_product cfg p) = setup_string cfg (p_name p) (p_version p) /\
+  find_pvr (embed cfg w) name (mkVref v (c_root cfg)) = option_map (embed_product cfg) (find_pv w name v) /\
+  (SetupMSInv.word (p_name p) -> SetupMSInv.word (p_version p) -> p_version p <> lit "-f" ->
+   SetupMSInv.word (flavor_of cfg (p_name p) (p_version p)) -> SetupMSInv.root_ok (c_root cfg) ->
+   alookup (setup_var (p_name p)) e = Some (setup_string cfg (p_name p) (p_version p)) ->
+   find_pv w (p_name p) (p_version p) = Some p ->
+   mfind_setup_product (embed cfg w) (c_flavor cfg) e (p_name p) =
+   option_map (embed_product cfg) (find_setup_product w e (p_name p))).
+Proof.
+  split; [reflexivity|]. split; [apply embed_find|]. apply embed_find_setup_product.
+Qed.
+Print Assumptions one_stack_is_a_special_case.
+
+(* ================================================================================================
+   SEVERAL STACKS: look-ups by relational expression (Proofs/SetupMSExpr.v).
+   The product chosen for  name expr  is the highest declaration, over ALL the stacks the command selected, that
+   satisfies the expression: a stack does not shadow the stacks behind it (it does for explicit versions and tags:
+   C03 first_stack_wins).  vcmp: a total order on the version names declared for the product.
+   ================================================================================================ *)
+From Eupsv Require Import Model.ResolveSpec Proofs.SetupMSExpr.
+
+Theorem ms_expression_designates_newest_over_selected_stacks vcmp vmatch fw n x f p :
+  total_order_on vcmp (names_of (mdb_of fw) n) ->
+  select_latest vcmp (find_by_expr vmatch (mdb_of fw) n x f) = Some p ->
+  vmatch (fd_version p) x = true /\
+  forall q, In q (mfw_products fw) -> In (mp_root q) (mfw_path fw) -> mp_name q = n -> mp_flavor q = f ->
+            vmatch (mp_version q) x = true -> vcmp (mp_version q) (fd_version p) <> Gt.
+Proof. exact (ms_expression_newest_lemma vcmp vmatch fw n x f p). Qed.
+Print Assumptions ms_expression_designates_newest_over_selected_stacks.
+
+(* on a world: lib 1.0 in the first stack (tagged current there), lib 2.0 only in the second; app 1.0 says
+   setupRequired(lib >= 1.0).  setup app on the whole path decides app 1.0 of /a and lib 2.0 of /b, and SETUP_LIB
+   records the second stack; with the first stack alone selected (-Z /a) lib 1.0 is what the expression designates *)
+Definition xx_colon : ascii := ":"%char.
+Definition xx_prod (n v root : string) (acts : list Setup.action) : mproduct :=
+  {| mp_name := lit n; mp_version := lit v; mp_root := lit root; mp_flavor := lit "Linux64";
+     mp_dir := lit root ++ lit "/" ++ lit n ++ lit "/" ++ lit v;
+     mp_actions := Setup.APath false (lit "PATH") (lit root ++ lit "/" ++ lit n ++ lit "/" ++ lit v ++ lit "/bin") xx_colon :: acts |}.
+Arguments xx_prod (n v root)%string acts.
+Definition xx_fw (path : list str) : mfworld :=
+  {| mfw_products := [xx_prod "lib" "1.0" "/a" []; xx_prod "lib" "2.0" "/b" [];
+                      xx_prod "app" "1.0" "/a" [Setup.ASetup false (lit "lib") false]];
+     mfw_lines := [(lit "app", mkVref (lit "1.0") (lit "/a"),
+                    [no_info; {| li_version := Some (lit ">= 1.0"); li_expr := None |}])];
+     mfw_tags := [(lit "/a", (lit "lib", lit "Linux64", lit "current", lit "1.0"));
+                  (lit "/a", (lit "app", lit "Linux64", lit "current", lit "1.0"))];
+     mfw_path := path |}.
+Definition xx_cfg : Setup.config :=
+  {| c_flavor := lit "Linux64"; c_root := lit "/a"; c_max_depth := None; c_keep := false; c_flavors := [] |}.
+Definition xx_st0 : state := {| s_env := [(lit "PATH", lit "/usr/bin")]; s_aliases := [] |}.
+
+Example ms_expression_newest_in_later_stack :
+  (exists st, mrequest_full_simple (xx_fw [lit "/a"; lit "/b"]) xx_cfg default_config [lit "Linux64"; lit "generic"] 10
+                                   xx_st0 (lit "app") None true false
+              = Ok (Some st, [Some (mkVref (lit "1.0") (lit "/a")); Some (mkVref (lit "2.0") (lit "/b"))]) /\
+              alookup (lit "SETUP_LIB") (s_env st) = Some (lit "lib 2.0 -f Linux64 -Z /b")) /\
+  (exists st, mrequest_full_simple (xx_fw [lit "/a"]) xx_cfg default_config [lit "Linux64"; lit "generic"] 10
+                                   xx_st0 (lit "app") None true false
+              = Ok (Some st, [Some (mkVref (lit "1.0") (lit "/a")); Some (mkVref (lit "1.0") (lit "/a"))])).
+Proof.
+  split.
+  - eexists. split; vm_compute; reflexivity.
+  - eexists. vm_compute. reflexivity.
+Qed.
+Print Assumptions ms_expression_newest_in_later_stack.
